@@ -27,7 +27,9 @@ BASE = {
     "hdr.py": "# SPDX-FileCopyrightText: 2019 Own\n#\n# SPDX-License-Identifier: ISC\n\nh = 1\n",
 }
 SENTINEL = {"out.c": "int out;\n", "out.py": "o = 1\n", "keep.txt": "keep\n"}
-LINKS = {"l_out.c": "../sentinel/out.c", "l_in.c": "a.c", "l_dir": "../sentinel", "dangling.c": "nowhere"}
+LINKS = {"l_out.c": "../sentinel/out.c", "l_in.c": "a.c", "l_dir": "../sentinel", "dangling.c": "nowhere",
+         # symbolic links to directories *inside* the project (an alias of `src` at the top, an alias of a sibling directory below)
+         "l_src": "src", "src/l_deep": "deep"}
 IGNORED = ("ign.c", "build/gen.py")
 # REUSE.toml as a symbolic link (tree flavour "tl"; further values: "dir" = a directory of that name, "ignored-file" = a regular
 # file that Git ignores): target of the link, relative to the project root
@@ -393,7 +395,7 @@ def gen_cmd(rng, case, modelled=True):
         pool += ["notes.foo"] * 3
     if recursive:
         c["recursive"] = True
-        dirs = ["src", "src/deep", "build", "l_dir", "LICENSES"] + (["."] if c["dot"] else [])
+        dirs = ["src", "src/deep", "build", "l_dir", "LICENSES", "l_src", "src/l_deep"] + (["."] if c["dot"] else [])
         c["named"] = rng.sample(dirs, 1) + (rng.sample(["a.c", "b.py", "l_out.c", "ro.c"], rng.randint(0, 2)) if rng.random() < 0.5 else [])
         if "." in c["named"]:
             c["named"] = ["."]
@@ -517,7 +519,8 @@ class CommandStream(Stream):
             fs.append("F../sentinel/%s\nx" % n)
         fs.append("D../sentinel\n")
         fs += ["D%s\n" % d for d in sorted(dirs)]
-        fs += ["L%s\n%s" % (n, t) for n, t in links.items()]
+        # (link targets as paths from the project root: a target is relative to the directory that holds the link)
+        fs += ["L%s\n%s" % (n, os.path.normpath(os.path.join(os.path.dirname(n), t))) for n, t in links.items()]
         cand = set()
         for n in list(files) + list(links):
             cand |= {n, n + ".license", n + ".license.license"}
